@@ -97,6 +97,7 @@ func c20Calls(depth int) []string {
 	// layout variants of a few calls
 	out = append(out, "f2(\n  1,\n  2\n)", "v1( 1 , 2 , 3 )", "f3(f1(1), f2(1, f1(2)), 3)", "f2(1, f1(\"x\", \"y\"))", "f1(f2(1, 2, 3))", "unk(f2(1, 2))", "f2(unk(1, 2, 3), 2)", "f0(1)", "f1(f0())",
 		// a known call with parameters in a later slot of the enclosing call, the cursor in front of its first argument
+		"f2(1, f1 (2))", "f2(f1  (1), 2)", "v1(1, f2 (1, 2), 3)",
 		"f2(1, f1())", "f3(1, 2, f2( 1, 2))", "f2(1, v1())", "f3(1, f1( ), 3)", "v2(1, 2, 3, f2())",
 		"f2(1, )", "f3(1, 2, )", "f2(f2(1, ), 2)", "v1(f2(1, ), 2)", "f3([f2(1, )], 2, 3)", "v2(1, 2, 3, )", "f2(f3(1, 2, ), f1(1, ))", "f2( f1( 1 ) , )",
 		// signatures sharing a parameter table, one asked after the other
